@@ -107,7 +107,23 @@ def run(ctx, chk):
     # unknown externals other than the library itself
     for k, uses in sorted(I.unknown_ext.items()):
         chk.ob(k.startswith("ais:") or k.startswith("ais::"), "C20/unknown-external/%s" % k, "call to %s has no contract (first use %s)" % (k, uses[0]))
-    chk.cov["obligation_sites"] = n
+    # ---- (e) the library entry point the tool calls must itself be total (same analysis as C01,
+    #      std configuration): a panic inside AisParser::parse / unarmor / messages::parse kills the tool
+    from . import c01
+    lf = ctx.facts("std")
+    inv = c01.reachable_state_invariant(ctx, "std", chk)
+    nlib = 0
+    for (root, LI, npaths) in c01.analyse("std", lf, inv):
+        c01.finish_leaves(LI)
+        for site, o in sorted(LI.obl.items(), key=lambda x: repr(x[0])):
+            nlib += 1
+            if o.failures:
+                chk.ob(False, "C20/library-panic/%s/%s" % (o.kind.replace(" ", "_"), site[0]),
+                       "the library call made for every line can panic: %s at %s (%s), reached from %s: %s" % (o.kind, o.loc, site[0], root, o.failures[0][0]))
+        for k, uses in sorted(LI.unknown_ext.items()):
+            chk.ob(False, "C20/library-unknown-external/%s" % k, "library call to %s has no contract" % k)
+    chk.ob(nlib >= 200, "C20/library-floor/%d" % nlib, "library obligation sites examined: %d" % nlib, sample={"library_obligation_sites": nlib, "status": "all discharged"})
+    chk.cov["obligation_sites"] = n + nlib
     chk.cov["paths"] = len(outs)
     chk.cov["trusted_base"] = ["rustc MIR", "std::io::BufRead::split yields every '\\n'-separated chunk once, in order, then None", "Iterator::for_each visits every item in order",
                                "println!/eprintln! fail only on an I/O error", "the library call itself is covered by C01"]
